@@ -132,7 +132,7 @@ func runC05(ctx *core.Ctx) {
 		}
 		return scriptStyleInput(cs, env), true
 	}
-	docWorkload(ctx, spec.GenOpts{Styles: true, ScriptStyle: true}, ctx.N(2000, 16000), ctx.N(150, 400), 0, nil, in, c05Judge)
+	docWorkload(ctx, spec.GenOpts{Styles: true, ScriptStyle: true}, ctx.N(2000, 40000), ctx.N(150, 400), 0, nil, in, c05Judge)
 	// fixed worst-case policies with the piece strings
 	worst := [][]spec.Op{
 		{{K: spec.KNew}, {K: spec.KAllowElements, Names: []string{"script", "style", "b"}}, {K: spec.KAllowNoAttrs, Scope: "els", Names: []string{"script", "style"}},
